@@ -777,6 +777,18 @@ func (vfs *MemFS) Rename(oldpath, newpath string) error {
 		return &os.LinkError{Op: op, Old: oldpath, New: newpath, Err: nErr}
 	}
 
+	if oc, ok := oChild.(*dirNode); ok {
+		// The root directory can't be renamed.
+		if oc == oParent {
+			return &os.LinkError{Op: op, Old: oldpath, New: newpath, Err: vfs.err.InvalidArgument}
+		}
+	}
+
+	if nc, ok := nChild.(*dirNode); ok && nc == nParent {
+		// The root directory can't be replaced.
+		return &os.LinkError{Op: op, Old: oldpath, New: newpath, Err: vfs.err.InvalidArgument}
+	}
+
 	oParent.mu.Lock()
 	defer oParent.mu.Unlock()
 
